@@ -318,10 +318,61 @@ def merge_set():
     return {A.encode_pmsafsr, A.convert_attrs_hints}
 
 
+def alignment_unit():
+    """alignment_fault (PMSA): DFSR.FS = 00001, WnR = direction, DFAR = address, Data Abort raised, nothing else changes"""
+    m = registry.mods()
+    A = m.arm_v6.ArmV6
+    uid = 'C14/fn:%s.ArmV6.alignment_fault[pmsa]' % A.__module__
+
+    def symbolic(eng):
+        mach = MC.SymMachine(eng, 'PMSA', 1)
+        init = dict(mach.init)
+        address = eng.fresh_int('address', 32)
+        iswrite = eng.fresh_bool('iswrite')
+        if not eng.prefix:
+            eng.cover('state satisfiable')
+        contracts = {}
+        contracts.update(registry.l1())
+        contracts.update(registry.regview())
+        contracts.update(registry.l2())
+        eng.contracts = contracts
+        exc = None
+        try:
+            eng.call(A.alignment_fault, [mach.cpu, address, iswrite])
+        except PyRaise as e:
+            exc = e.exc
+        ok = exc is not None and issubclass(exc.cls, m.arm_exceptions.DataAbortException)
+        eng.oblige('post', 'alignment_fault raises the Data Abort', ok)
+        if not ok:
+            return
+        eng.oblige('post', 'the abort is an alignment fault', exc.attrs.get('abort_type') is m.enums.DAbort.ALIGNMENT)
+        exp = dict(init)
+        exp['dfar'] = address
+        exp['dfsr'] = PM.pmsa_dfsr(init['dfsr'], PM.FS_PMSA['ALIGNMENT'], iswrite)
+        eng.oblige_all('post', 'DFSR.FS = 00001, DFSR.WnR = direction of the access, DFAR = address; nothing else changes',
+                       [(k, values_eq(v, exp[k])) for k, v in mach.read().items()])
+
+    def replay(inputs, ob):
+        cpu = MC.native_cpu('PMSA', 1, fresh=True)
+        MC.install_native(cpu, dict(inputs), 'PMSA', 1)
+        init = MC.read_native(cpu, 'PMSA', 1)
+        a, w = inputs.get('address', 0), bool(inputs.get('iswrite'))
+        got = None
+        try:
+            cpu.alignment_fault(a, w)
+        except Exception as e:      # noqa
+            got = e
+        fin = MC.read_native(cpu, 'PMSA', 1)
+        exp_dfsr = PM.pmsa_dfsr(init['dfsr'], PM.FS_PMSA['ALIGNMENT'], w)
+        text = 'alignment_fault(%s, write=%s): raised %s, DFSR %s (architecture %s), DFAR %s' % (hex(a), w, type(got).__name__, hex(fin['dfsr']), hex(exp_dfsr), hex(fin['dfar']))
+        return (type(got).__name__ != 'DataAbortException' or fin['dfsr'] != exp_dfsr or fin['dfar'] != a), text
+    return Unit(uid, ['C14'], symbolic, replay, {'contracts': {}, 'merge_calls': merge_set()}, meta={'function': '%s.ArmV6.alignment_fault' % A.__module__})
+
+
 def units(tier):
     # unbounded in the number of regions: head + inductive step + the code after the loop for an arbitrary scan result;
     # the small unrolled instances cross-check the cut-point machinery and give replayable counterexamples
-    out = loop_units(12) + [translate_unit(12, 'tail')]
+    out = loop_units(12) + [translate_unit(12, 'tail'), alignment_unit()]
     for n in ([0, 1, 2, 3] if tier == 'thorough' else [0, 1, 2]):
         out.append(translate_unit(n))
     return out
